@@ -392,6 +392,8 @@ def argmin(self, axis=None, skipna=False):
 
     # along axis: single axis value
     if axis is not None: # res is DimArray
+        if not is_DimArray(res): # 1-D array: res is a scalar position
+            return obj.axes[idx].values[res]
         res.values = obj.axes[idx].values[res.values] 
         return res
 
@@ -415,6 +417,8 @@ def argmax(self, axis=None, skipna=False):
 
     # along axis: single axis value
     if axis is not None: # res is DimArray
+        if not is_DimArray(res): # 1-D array: res is a scalar position
+            return obj.axes[idx].values[res]
         res.values = obj.axes[idx].values[res.values] 
         return res
 
